@@ -597,6 +597,8 @@ class SimTimeModule:
 # ---------------------------------------------------------------------------------------------
 
 _ORIG = {}
+from .core import SimKill as _SK, SimSpin as _SS  # noqa: E402
+_SimKillTypes = (_SK, _SS)
 
 
 def patch_thread_class():
@@ -628,8 +630,21 @@ def patch_thread_class():
         s = current_sim()
         if st is None or s is None or not s.in_sim_thread():
             return _ORIG['join'](self, timeout)
+        if self.__dict__.get('_sim_marked_stopped'):
+            return
         tm = _Timer(s, timeout)
-        s.yield_('thread.join', st.role, lambda: st.finished or tm.fired)
+        try:
+            s.yield_('thread.join', st.role, lambda: st.finished or tm.fired)
+        except BaseException as e:
+            # CPython 3.12 (checked on this interpreter): when an exception such as
+            # KeyboardInterrupt arrives while join() is blocked on a thread that is still running,
+            # _wait_for_tstate_lock's handler releases that thread's state lock and marks it
+            # stopped: from then on is_alive() is False and join() returns at once although the
+            # thread goes on running.
+            if not st.finished and not isinstance(e, _SimKillTypes):
+                self.__dict__['_sim_marked_stopped'] = True
+                s.rec('thread.join.interrupted', st.role, type(e).__name__)
+            raise
 
     def is_alive(self):
         st = getattr(self, '_sim_thread', None)
@@ -637,7 +652,7 @@ def patch_thread_class():
         if st is None or s is None or not s.in_sim_thread():
             return _ORIG['is_alive'](self)
         s.yield_('thread.alive', st.role)
-        alive = not st.finished
+        alive = not st.finished and not self.__dict__.get('_sim_marked_stopped')
         if s.record_on and s.log:
             e = s.log[-1]
             s.log[-1] = (e[0], e[1], e[2], e[3], e[4], alive)
